@@ -867,6 +867,62 @@ Proof.
   rewrite Huc. eexists; eexists; reflexivity.
 Qed.
 (* ================================================================================================ *)
+(* The hypothesis "class hashes are distinct" (first half of wf_table) is necessary                  *)
+(* ================================================================================================ *)
+(* Two classes with the same import path (module + name) get the same `_class_hash`, hence the same cache entry
+   and the same URL: `_is_script_in_cache` finds the entry of the class rendered first and the second class's
+   code is never stored.  With wf_table weakened to its second half (hashes are URL segments) the main theorem is
+   false: the URL announced by the render of the second class answers 200 with the FIRST class's code. *)
+Local Open Scope string_scope.
+Definition dup1 : cdef := {| chash := s2n "Dup_0a0a0a"; cjs := Some (s2n "first()"); ccss := None |}.
+Definition dup2 : cdef := {| chash := s2n "Dup_0a0a0a"; cjs := Some (s2n "second()"); ccss := None |}.
+Local Close Scope string_scope.
+
+Lemma same_hash_served_first_code :
+  let tbl := [dup1; dup2] in
+  let pre := [ORender Fragment [(dup1, None, None)]] in
+  let insts := [(dup2, None, None)] in
+  Forall (fun c => seg_ok (chash c)) tbl /\ Forall (wf_op tbl) pre /\ Forall (wf_inst tbl) insts /\
+  ~ NoDup (map chash tbl) /\
+  snd (step tbl (final tbl [] pre) (ORender Fragment insts)) = OutUrls [url (chash dup2) KJs None] [] /\
+  serve tbl (final tbl [] (pre ++ [ORender Fragment insts])) GET (url (chash dup2) KJs None)
+    = R200 (stripped dup1 KJs) (ctype KJs) /\
+  stripped dup1 KJs <> stripped dup2 KJs.
+Proof.
+  cbv zeta.
+  assert (Hseg : seg_ok (chash dup1)) by (split; [discriminate | cbv; intuition discriminate]).
+  assert (Hi1 : wf_inst [dup1; dup2] (dup1, None, None)) by (cbv; tauto).
+  assert (Hi2 : wf_inst [dup1; dup2] (dup2, None, None)) by (cbv; tauto).
+  split; [apply Forall_cons; [exact Hseg | apply Forall_cons; [exact Hseg | apply Forall_nil]]|].
+  split; [apply Forall_cons; [apply Forall_cons; [exact Hi1 | apply Forall_nil] | apply Forall_nil]|].
+  split; [apply Forall_cons; [exact Hi2 | apply Forall_nil]|].
+  split; [intro H; inversion H as [|x l Hn _]; apply Hn; left; reflexivity|].
+  split; [vm_compute; reflexivity|].
+  split; [vm_compute; reflexivity|].
+  vm_compute; discriminate.
+Qed.
+
+Lemma emitted_url_served_without_distinct_hashes_refuted_lemma :
+  ~ (forall tbl pre m insts js css,
+       Forall (fun c => seg_ok (chash c)) tbl -> Forall (wf_op tbl) pre -> Forall (wf_inst tbl) insts ->
+       snd (step tbl (final tbl [] pre) (ORender m insts)) = OutUrls js css ->
+       forall u, In u (js ++ css) ->
+       exists i k ih,
+         In i insts /\ produced i k ih /\ u = url (chash (icls i)) k ih /\
+         forall mid, no_evict (gen_cache_key (chash (icls i)) (kstr k) ih) mid ->
+           serve tbl (final tbl [] (pre ++ ORender m insts :: mid)) GET u
+             = R200 (expected (icls i) k ih) (ctype k)).
+Proof.
+  intro H.
+  destruct same_hash_served_first_code as [Hseg [Hpre [Hin [_ [Hout [Hserve _]]]]]].
+  destruct (H _ _ _ _ _ _ Hseg Hpre Hin Hout (url (chash dup2) KJs None) (or_introl eq_refl))
+    as [i [k [ih [Hi [_ [_ Hs]]]]]].
+  destruct Hi as [<-|[]].
+  specialize (Hs [] eq_refl). rewrite Hserve in Hs. unfold expected in Hs. simpl icls in Hs.
+  destruct k; destruct (norm_ih ih); vm_compute in Hs; discriminate.
+Qed.
+
+(* ================================================================================================ *)
 (* Anchors: the hand-written matcher / formats are the ones of the current source                     *)
 (* (coq/Gen/C19.v is regenerated from /repo on every run; an edit there breaks these obligations)     *)
 (* ================================================================================================ *)
